@@ -1655,6 +1655,15 @@ namespace awkward {
         std::string("cannot mix missing values in slice with NumPy-style "
                     "advanced indexing") + FILENAME(__LINE__));
     }
+    for (auto item : tail.items()) {
+      // the same mix in the other order: the array would be iterated
+      // jointly with the non-missing part of this one only
+      if (dynamic_cast<SliceArray64*>(item.get())) {
+        throw std::invalid_argument(
+          std::string("cannot mix missing values in slice with NumPy-style "
+                      "advanced indexing") + FILENAME(__LINE__));
+      }
+    }
 
     if (dynamic_cast<SliceJagged64*>(missing.content().get())) {
       if (length() != 1) {
